@@ -320,6 +320,7 @@ def _axioms_of(f):
             if z3.is_app(t) and t.decl().name() == "tyof" and z3.is_int_value(k) and k.as_long() in synced:
                 # only references to synced nodes are instances of synced classes (Inv.node)
                 ax.append(z3.Implies(e, smt.is_VRef(t.children()[0])))
+    ax.extend(list_axioms(f))
     from .stdlib_spec import stdlib_axioms
     ax.extend(stdlib_axioms([f]))
     ax.extend(path_axioms(f))
@@ -332,6 +333,32 @@ def _axioms_of(f):
                 extra.append(z3.Implies(smt.is_VNone(t), e == T("NoneType")))
                 extra.append(z3.Implies(smt.is_VStr(t), e == T("str")))
     return ax + extra, need_ground
+
+
+def list_axioms(f):
+    """len / get over append and the empty list [SPEC-BUILTIN]."""
+    ax = []
+    for e in smt.subterms([f]):
+        if not z3.is_app(e):
+            continue
+        nm = e.decl().name()
+        if nm == "list_len":
+            c = e.children()[0]
+            ax.append(e >= 0)
+            if z3.is_app(c) and c.decl().name() == "list_append":
+                ax.append(e == bs.list_len(c.children()[0]) + 1)
+                ax.append(bs.list_len(c.children()[0]) >= 0)
+            if z3.is_app(c) and c.decl().name() == "list_empty":
+                ax.append(e == 0)
+        if nm == "list_get":
+            c, j = e.children()
+            if z3.is_app(c) and c.decl().name() == "list_append" and z3.is_app(j) and j.decl().name() == "VInt":
+                c0, x = c.children()
+                ji = j.children()[0]
+                ax.append(z3.Implies(z3.And(ji >= 0, ji <= bs.list_len(c0)),
+                                     e == z3.If(ji == bs.list_len(c0), x, bs.list_get(c0, j))))
+                ax.append(bs.list_len(c0) >= 0)
+    return ax
 
 
 def row_axioms(f):
